@@ -301,7 +301,22 @@ func (mw *msgWriter) stopMP() {
 //   - A string representing the multipart boundary, or an empty string if none is found.
 func (mw *msgWriter) getMultipartBoundary(msg *Msg, mimetype MIMEType) string {
 	if msg.boundary != "" {
-		return msg.boundary
+		// The user defined boundary is used for the outermost multipart container. Containers nested
+		// within it must not share its boundary (RFC 2046, section 5.1.1), otherwise the close
+		// delimiter of the inner container also terminates the outer one and everything that follows
+		// (e. g. the attachments) is cut off. Nested containers get a boundary derived from the user's.
+		outermost := mimetype == MIMEMixed ||
+			(mimetype == MIMERelated && !msg.hasMixed()) ||
+			(mimetype == MIMEAlternative && !msg.hasMixed() && !msg.hasRelated())
+		if outermost {
+			return msg.boundary
+		}
+		// (prefixed, so that no boundary is the prefix of another one)
+		nested := string(mimetype) + "_" + msg.boundary
+		if len(nested) > 70 {
+			nested = nested[:70]
+		}
+		return nested
 	}
 	if msg.multiPartBoundary[mimetype] != "" {
 		return msg.multiPartBoundary[mimetype]
